@@ -316,7 +316,8 @@ class Connection(protocol.Protocol, policies.TimeoutMixin):
 
             d.errback(self._error or BadHandshake("connection lost"))
         if self._consumer_deferred:
-            self._consumer_deferred.errback(error.ConnectionClosed())
+            d, self._consumer_deferred = self._consumer_deferred, None
+            d.errback(error.ConnectionClosed())
 
     # IConsumer methods, for outbound flow-control. We pass these through to
     # the transport. The 'producer' is something like a t.p.basic.FileSender
@@ -390,6 +391,7 @@ class Connection(protocol.Protocol, policies.TimeoutMixin):
         if self._gone and d is not None and not d.called:
             # the connection had ended before the consumer was attached:
             # what was queued has been written, no more will come
+            self._consumer_deferred = None
             d.errback(error.ConnectionClosed())
         return d
 
